@@ -6,9 +6,11 @@ from .common import REPO, BUILD, ROOT, NCPU, Lock, sh
 FLAVOURS = {
     "ndebug": ["-O1", "-DNDEBUG"],
     "assert": ["-O1"],
-    "asan": ["-O1", "-g", "-DNDEBUG", "-fsanitize=address,undefined", "-fno-sanitize=vptr",
+    # _GLIBCXX_ASSERTIONS: every std::vector/string/stack access is bounds-checked against size(), not capacity (ASan alone
+    # only sees a read past the allocation: C01-b read one element past size() inside spare capacity)
+    "asan": ["-O1", "-g", "-DNDEBUG", "-D_GLIBCXX_ASSERTIONS", "-fsanitize=address,undefined", "-fno-sanitize=vptr",
              "-fno-sanitize-recover=undefined", "-fno-omit-frame-pointer"],
-    "asan-assert": ["-O1", "-g", "-fsanitize=address,undefined", "-fno-sanitize=vptr",
+    "asan-assert": ["-O1", "-g", "-D_GLIBCXX_ASSERTIONS", "-fsanitize=address,undefined", "-fno-sanitize=vptr",
                     "-fno-sanitize-recover=undefined", "-fno-omit-frame-pointer"],
 }
 COMMON = ["-std=c++17", "-w", "-DPSYCHEC_VERIF", "-I" + REPO, "-I" + os.path.join(REPO, "C"),
